@@ -144,6 +144,8 @@ class World:
                 directlyProvides(self.cls[act['c']], *self.ifs(act['ifs']))
             else:
                 provider(*self.ifs(act['ifs']))(self.cls[act['c']])
+        elif op == 'alsoClassProvides':
+            alsoProvides(self.cls[act['c']], *self.ifs(act['ifs']))
         elif op == 'superQuery':
             o = [x for i, x in self.obj.items()
                  if job['classof'][i - 1] == act['t']][0]
@@ -258,7 +260,10 @@ class World:
         for i in self.iface:
             if i == 0:
                 continue
-            for meth in ('queryAdapter', 'adapter_hook', 'multi'):
+            # every entry point twice: the second call is answered from the
+            # lookup cache the first one filled
+            for meth in ('queryAdapter', 'queryAdapter', 'adapter_hook',
+                         'adapter_hook', 'multi', 'multi'):
                 del calls[:]
                 if meth == 'queryAdapter':
                     r = reg.queryAdapter(sup, IP, 'n%d' % i, None)
